@@ -63,11 +63,14 @@ package mkvs
 
 //@ func tree.Insert
 //@   props C13
+//@   nowrite pendingEntry.existed
+//@   note the `existed` flag of a pending entry records whether the key was present in the last COMMITTED root; it is set when the entry is created and never rewritten by a later insert or removal of the same key in the batch
 //@   precall mkvs\.cache\)\.setPendingRoot$ :: t.withoutWriteLog || (t.pendingWriteLog[ufr[string]("toMapKey", key)] != nil && t.pendingWriteLog[ufr[string]("toMapKey", key)].insertedLeaf == result.insertedLeaf && bytesId(t.pendingWriteLog[ufr[string]("toMapKey", key)].value) == bytesId(value) && (defined(entry) && entry == nil ==> t.pendingWriteLog[ufr[string]("toMapKey", key)].existed == result.existed))
 //@   note the stored write log and its annotations are built from these entries at commit: a stale leaf (e.g. nil after remove + re-insert in one batch) would make the database serve a log that does not reproduce the new root
 
 //@ func tree.RemoveExisting
 //@   props C13
+//@   nowrite pendingEntry.existed
 //@   precall mkvs\.cache\)\.setPendingRoot$ :: t.withoutWriteLog || (entry != nil && entry.value == nil && entry.insertedLeaf == nil) || (entry == nil && t.pendingWriteLog[ufr[string]("toMapKey", key)] != nil && t.pendingWriteLog[ufr[string]("toMapKey", key)].insertedLeaf == nil && t.pendingWriteLog[ufr[string]("toMapKey", key)].value == nil && t.pendingWriteLog[ufr[string]("toMapKey", key)].existed == changed)
 //@   note after a removal the entry recorded for the key has no value and no inserted leaf, and a NEW entry records "existed before" exactly as the tree reported it (doRemove's changed flag - also for a key stored with an empty value): the stored log will contain a deletion, or nothing only if the key did not exist before
 
@@ -186,6 +189,36 @@ package mkvs
 
 // ---- remote sync (C04): a fetched proof that does not contain the requested node is an error, never "absent" ----
 
+
+// ---- serving proofs (C04, completeness side): where the proof is anchored ----
+
+//@ func tree.SyncIterate
+//@   props C04
+//@   requires t != nil && request != nil
+//@   precall syncer\.NewProofBuilderForVersion$ :: argIs(0, request.Tree.Root.Hash) && argIs(1, request.Tree.Root.Hash)
+//@   precall mkvs\.Iterator\)\.GetProof$ :: ItErrNil(it)
+//@   note the proof served for an iteration is anchored at the tree ROOT (an iteration may leave the requester's subtree; a proof anchored at the requested position drops the nodes outside it and no longer determines the keys asked about), and it is taken only from an iterator without error
+
+//@ func tree.SyncGetPrefixes
+//@   props C04
+//@   requires t != nil && request != nil
+//@   precall syncer\.NewProofBuilderForVersion$ :: argIs(0, request.Tree.Root.Hash) && argIs(1, request.Tree.Root.Hash)
+//@   note the proof served for a prefix fetch is anchored at the tree root
+
+// ---- tree iterator descent (C03): which children of an internal node a Seek/Next step tries ----
+
+//@ ghost var GDoNext int
+
+//@ func treeIterator.doNext
+//@   props C03
+//@   requires it != nil
+//@   assume-pre (node\.Key\.(AppendBit|GetBit)|mkvs\.cache\.derefNodePtr)$
+//@   precall treeIterator\)\.doNext$ :: state == visitBefore && GDoNext == old(GDoNext) && defined(newPath) && ((newBitDepth > 0 && 8 * len(key) >= int(newBitDepth) && uf("keyCompare", key, newPath) < 0) || 8 * len(key) <= int(newBitDepth)) ==> argIs(0, nd.(*node.InternalNode).LeafNode)
+//@   ensures-local err == nil && defined(newPath) && state == visitBefore && it.key == nil && 8 * len(old(key)) <= int(newBitDepth) ==> GDoNext >= old(GDoNext) + 2
+//@   ensures-local err == nil && defined(newPath) && state == visitAt && it.key == nil ==> GDoNext >= old(GDoNext) + 1
+//@   ensures-local err == nil && defined(newPath) && state == visitAtLeft && it.key == nil ==> GDoNext >= old(GDoNext) + 1
+//@   note GDoNext counts the direct recursive descents of one activation. Arriving at an internal node from above with a seek key that is at least as long as the node's path but sorts before it (so that the whole subtree is at or after the seek position), the FIRST descent of the step is into the node's own leaf (also for a seek key not longer than the path): the key stored AT an internal node (a key that is a prefix of other keys) is not skipped. With a seek key not longer than the path at least two children are tried (the leaf and the right subtree; whether the left one is depends on the appended bit, which the contracts of AppendBit/GetBit do not relate)
+
 //@ ghost var GRemoteSyncs int
 
 //@ func cache.derefNodePtr
@@ -232,10 +265,11 @@ package mkvs
 
 //@ ghost var GOvYield int
 //@ ghost var GInnerIns int
+//@ ghost var GInnerRem int
 
 //@ func treeOverlay.Commit
 //@   props C03
-//@   loop 1 invariant GOvYield - old(GOvYield) == GInnerIns - old(GInnerIns) + ite(ok, 1, 0)
-//@   loop 2 invariant GOvYield - old(GOvYield) == GInnerIns - old(GInnerIns)
+//@   loop 1 invariant GOvYield - old(GOvYield) == GInnerIns - old(GInnerIns) + ite(ok, 1, 0) && GInnerRem == old(GInnerRem)
+//@   loop 2 invariant GOvYield - old(GOvYield) == GInnerIns - old(GInnerIns) && GInnerRem - old(GInnerRem) == idx()
 //@   ensures err == nil ==> GOvYield - old(GOvYield) == GInnerIns - old(GInnerIns)
-//@   note counted: every time the overlay's iterator yields an entry (First/Next returned true), exactly one Insert into the inner tree follows before the next step - no entry of the overlay is skipped at commit, whatever its value and whatever the inner tree already holds
+//@   note counted: every time the overlay's iterator yields an entry (First/Next returned true), exactly one Insert into the inner tree follows before the next step - no entry of the overlay is skipped at commit, whatever its value and whatever the inner tree already holds; and every key still marked dirty afterwards (a removal) gets exactly one Remove on the inner tree
